@@ -15,7 +15,7 @@
 EXTENDS Naturals, Integers, Sequences, FiniteSets, TLC, Json
 CONSTANTS Cfgs,      \* set of world configuration records (harness/world.py DEFAULT_CFG shape)
           K,         \* fault budget
-          Faults,    \* subset of {"drop", "dup", "swap", "flip", "wrej", "delay"}
+          Faults,    \* subset of {"drop", "dup", "swap", "flip", "wrej", "delay", "hold"}
           Cancels,   \* subset of {"S", "D"}: one cancel request of that user may happen
           Cuts,      \* subset of {"sd", "ds"}: that link may fall silent for good (C04)
           Pacing,    \* "canon" (entity loop of the example application) | "free" (any interleaving)
@@ -26,8 +26,8 @@ S == INSTANCE SrcCore
 D == INSTANCE DstCore
 Now == 100000
 None == [t |-> "none"]
-VARIABLES cfg, hs, hd, sd, ds, budget, cbud, cut, obs, turn, settled, hist, txn
-vars == <<cfg, hs, hd, sd, ds, budget, cbud, cut, obs, turn, settled, hist, txn>>
+VARIABLES cfg, hs, hd, sd, ds, budget, cbud, cut, obs, turn, settled, hist, txn, held
+vars == <<cfg, hs, hd, sd, ds, budget, cbud, cut, obs, turn, settled, hist, txn, held>>
 
 CMax(a, b) == IF a > b THEN a ELSE b
 CMin(a, b) == IF a < b THEN a ELSE b
@@ -87,7 +87,7 @@ DstClosed == obs.dStarted /\ hd.state = "IDLE"
 EntAckEof(p) == [h |-> [p.h EXCEPT !.dir = "TS"], t |-> "ACK", acked |-> "EOF", cond |-> p.cond, tstat |-> "TERMINATED"]
 EntAckFin(p) == [h |-> [p.h EXCEPT !.dir = "TR"], t |-> "ACK", acked |-> "FIN", cond |-> p.cond, tstat |-> "TERMINATED"]
 
-Quiet == sd = <<>> /\ ds = <<>>
+Quiet == sd = <<>> /\ ds = <<>> /\ held.sd = <<>> /\ held.ds = <<>>
 AtRest == SrcClosed /\ hd.state = "IDLE" /\ Quiet
 NTx == 1 + Len(cfg.more)          \* cfg.more: the put requests that follow the first one on the same handlers
 Done == AtRest /\ txn = NTx
@@ -119,7 +119,7 @@ Init ==
   /\ hs = S!SrcPut(S!InitS(cfg), cfg, ReqOf(cfg), Now).h
   /\ hd = D!InitD(Fs0(cfg))
   /\ sd = <<>> /\ ds = <<>> /\ budget = K /\ cbud = Cancels /\ cut = {} /\ obs = Obs0
-  /\ turn = "S" /\ settled = {} /\ hist = <<>> /\ txn = 1
+  /\ turn = "S" /\ settled = {} /\ hist = <<>> /\ txn = 1 /\ held = [sd |-> <<>>, ds |-> <<>>]
 
 \* ---- handler calls (one state_machine call + draining get_next_packet into the outbound link) ----
 SrcCall(deliver) ==
@@ -132,7 +132,7 @@ SrcCall(deliver) ==
      /\ settled' = IF ~deliver /\ dr.out = <<>> /\ dr.h = hs THEN settled \cup {"S"} ELSE settled \ {"S"}
   /\ turn' = IF Canon THEN "D" ELSE turn
   /\ Hist("S", IF deliver THEN 1 ELSE 0)
-  /\ UNCHANGED <<txn, cfg, hd, budget, cbud, cut>>
+  /\ UNCHANGED <<held, txn, cfg, hd, budget, cbud, cut>>
 DstCall(deliver, wrej) ==
   /\ Open /\ Polling /\ ~DstClosed /\ (Canon => turn = "D") /\ (deliver => sd # <<>>) /\ (Canon /\ sd # <<>> => deliver)
   /\ wrej => (deliver /\ Head(sd).t = "FD" /\ "wrej" \in Faults /\ budget > 0)
@@ -146,7 +146,7 @@ DstCall(deliver, wrej) ==
   /\ budget' = IF wrej THEN budget - 1 ELSE budget
   /\ turn' = IF Canon THEN "S" ELSE turn
   /\ Hist("D", IF wrej THEN 2 ELSE IF deliver THEN 1 ELSE 0)
-  /\ UNCHANGED <<txn, cfg, hs, cbud, cut>>
+  /\ UNCHANGED <<held, txn, cfg, hs, cbud, cut>>
 \* closed transactions: the entity answers Finished / EOF and discards the rest
 SrcEntity ==
   /\ Open /\ Polling /\ SrcClosed /\ (Canon => turn = "S")
@@ -154,14 +154,14 @@ SrcEntity ==
                        /\ ds' = Tail(ds) /\ Hist("Se", 1)
      ELSE Canon /\ UNCHANGED <<sd, ds, hist>>
   /\ turn' = IF Canon THEN "D" ELSE turn
-  /\ UNCHANGED <<txn, cfg, hs, hd, budget, cbud, cut, obs, settled>>
+  /\ UNCHANGED <<held, txn, cfg, hs, hd, budget, cbud, cut, obs, settled>>
 DstEntity ==
   /\ Open /\ Polling /\ DstClosed /\ (Canon => turn = "D")
   /\ IF sd # <<>> THEN /\ ds' = IF Head(sd).t = "EOF" /\ Head(sd).h.mode = "ACK" THEN OnDs(<<EntAckEof(Head(sd))>>) ELSE ds
                        /\ sd' = Tail(sd) /\ Hist("De", 1)
      ELSE Canon /\ UNCHANGED <<sd, ds, hist>>
   /\ turn' = IF Canon THEN "S" ELSE turn
-  /\ UNCHANGED <<txn, cfg, hs, hd, budget, cbud, cut, obs, settled>>
+  /\ UNCHANGED <<held, txn, cfg, hs, hd, budget, cbud, cut, obs, settled>>
 
 \* ---- the link: faults hit the PDU that would be delivered next ----
 LinkTurn(l) == Canon => turn = (IF l = "sd" THEN "D" ELSE "S")
@@ -180,14 +180,31 @@ Fault(kind, l) ==
   /\ budget' = budget - 1
   /\ obs' = [obs EXCEPT !.corrupt = @ \/ kind = "flip", !.lastEnvTxn = txn]
   /\ Hist(kind, IF l = "sd" THEN 0 ELSE 1)
-  /\ UNCHANGED <<txn, cfg, hs, hd, cbud, cut, turn, settled>>
+  /\ UNCHANGED <<held, txn, cfg, hs, hd, cbud, cut, turn, settled>>
+\* one PDU is delayed / overtaken: the PDU that would be delivered next is taken out of the link (one fault) and put back in
+\* front of whatever is in the link at some later moment (before time passes again under canonical pacing)
+Hold(l) ==
+  /\ Open /\ "hold" \in Faults /\ budget > 0 /\ LinkTurn(l) /\ held[l] = <<>>
+  /\ LET q == IF l = "sd" THEN sd ELSE ds IN
+     /\ q # <<>>
+     /\ held' = [held EXCEPT ![l] = <<Head(q)>>]
+     /\ IF l = "sd" THEN sd' = Tail(q) /\ UNCHANGED ds ELSE ds' = Tail(q) /\ UNCHANGED sd
+  /\ budget' = budget - 1
+  /\ Hist("hold", IF l = "sd" THEN 0 ELSE 1)
+  /\ UNCHANGED <<txn, cfg, hs, hd, cbud, cut, obs, turn, settled>>
+Release(l) ==
+  /\ Open /\ held[l] # <<>>
+  /\ held' = [held EXCEPT ![l] = <<>>]
+  /\ IF l = "sd" THEN sd' = held[l] \o sd /\ UNCHANGED ds ELSE ds' = held[l] \o ds /\ UNCHANGED sd
+  /\ Hist("release", IF l = "sd" THEN 0 ELSE 1)
+  /\ UNCHANGED <<txn, cfg, hs, hd, budget, cbud, cut, obs, turn, settled>>
 \* the link falls silent for good: everything in flight and everything sent later is lost
 Cut(l) ==
   /\ Open /\ l \in Cuts /\ l \notin cut /\ LinkTurn(l)
   /\ cut' = cut \cup {l}
   /\ IF l = "sd" THEN sd' = <<>> /\ UNCHANGED ds ELSE ds' = <<>> /\ UNCHANGED sd
   /\ Hist("cut", IF l = "sd" THEN 0 ELSE 1)
-  /\ UNCHANGED <<txn, cfg, hs, hd, budget, cbud, obs, turn, settled>>
+  /\ UNCHANGED <<held, txn, cfg, hs, hd, budget, cbud, obs, turn, settled>>
 
 \* Time passing while PDUs are in flight delays each of them: that is a link fault ("delay") and costs budget.
 Tick(dt) ==
@@ -199,7 +216,7 @@ Tick(dt) ==
   /\ <<hs', hd'>> # <<hs, hd>>        \* only while some armed timer has not expired yet
   /\ settled' = {}
   /\ Hist("tick", dt)
-  /\ UNCHANGED <<txn, cfg, sd, ds, cbud, cut, obs, turn>>
+  /\ UNCHANGED <<held, txn, cfg, sd, ds, cbud, cut, obs, turn>>
 
 \* ---- the users ----
 CancelS ==
@@ -209,7 +226,7 @@ CancelS ==
      /\ hs' = dr.h /\ sd' = OnSd(dr.out) /\ obs' = [ObsCall("S", c, dr.out, hd.fs) EXCEPT !.lastEnvTxn = txn]
   /\ cbud' = cbud \ {"S"} /\ settled' = settled \ {"S"}
   /\ Hist("cancelS", 1)
-  /\ UNCHANGED <<txn, cfg, hd, ds, budget, cut, turn>>
+  /\ UNCHANGED <<held, txn, cfg, hd, ds, budget, cut, turn>>
 CancelD ==
   /\ Open /\ "D" \in cbud /\ hd.state = "BUSY" /\ (Canon => turn = "D")
   /\ LET c == D!DstCancel(hd, cfg, TRUE, Now)
@@ -217,7 +234,7 @@ CancelD ==
      /\ hd' = dr.h /\ ds' = OnDs(dr.out) /\ obs' = [ObsCall("D", c, dr.out, dr.h.fs) EXCEPT !.lastEnvTxn = txn]
   /\ cbud' = cbud \ {"D"} /\ settled' = settled \ {"D"}
   /\ Hist("cancelD", 1)
-  /\ UNCHANGED <<txn, cfg, hs, sd, budget, cut, turn>>
+  /\ UNCHANGED <<held, txn, cfg, hs, sd, budget, cut, turn>>
 
 \* the next put request on the same (now idle again) handlers, after a pause of m.gap ms
 NextPut ==
@@ -227,20 +244,22 @@ NextPut ==
      /\ hs' = S!SrcPut(hs, cfg, ReqOf(c2), Now).h
      /\ Hist("put", m.gap)
   /\ txn' = txn + 1 /\ obs' = [obs EXCEPT !.dStarted = FALSE] /\ settled' = {} /\ turn' = "S"
-  /\ UNCHANGED <<cfg, hd, sd, ds, budget, cbud, cut>>
+  /\ UNCHANGED <<cfg, hd, sd, ds, budget, cbud, cut, held>>
 
 Calls == \/ \E d \in BOOLEAN : SrcCall(d)
          \/ NextPut
          \/ \E d \in BOOLEAN, w \in BOOLEAN : DstCall(d, w)
          \/ SrcEntity \/ DstEntity
 Env == \/ \E k \in {"drop", "dup", "swap", "flip"}, l \in {"sd", "ds"} : Fault(k, l)
+       \/ \E l \in {"sd", "ds"} : Hold(l) \/ Release(l)
        \/ \E l \in {"sd", "ds"} : Cut(l)
        \/ CancelS \/ CancelD
 Time == \E dt \in Ticks : Tick(dt)
 Next == Calls \/ Env \/ Time
 Spec == Init /\ [][Next]_vars
 \* fairness for liveness: handler calls, entity answers and the clock keep going (faults need not)
-FairSpec == Spec /\ WF_vars(Calls) /\ WF_vars(Time)
+\* (and a PDU that was held back is delivered in the end)
+FairSpec == Spec /\ WF_vars(Calls) /\ WF_vars(Time) /\ WF_vars(\E l \in {"sd", "ds"} : Release(l))
 
 \* ==== properties over the observations ====
 \* C01: a reported success implies an identical file (or a genuine checksum collision)
